@@ -87,6 +87,11 @@ CHECKS = {
    technique="bounded exhaustive enumeration of command programs and of define/call histories (incl. overlapping calls) against the real commands::serve",
    text="(a) every command script of {8 output shapes} x {explicit .append} x {eager runtime error} x {return_options}: recv per value in order with the JSON rendering as content, then exactly one complete, or exactly one error; stamps, context, TTL, suffix. (b) every history of define / invalid define / call / two overlapping calls over 2 names x 2 contexts up to depth 3 (4 thorough) ending in an observation: each call is served exactly once by the latest valid definition of its own context; results carry the call id (no mixing between overlapping calls), a per-call env counter must read 0 (no state leak); calls without a definition in their context produce nothing.",
    note="Trusted: nushell. The schedule of overlapping calls is the OS's (mixing is detectable under any schedule because results embed the call id). Absence is decided after the expected terminal events plus a 60 ms grace period. No-replay-after-restart is C17's check."),
+
+ "C17": dict(engine="E5-lifecycle (real binary)", cat="model_checking", ref="DESIGN.md §5 C17",
+   technique="bounded exhaustive enumeration of lifecycle histories x restart points x {SIGKILL, SIGTERM} against the real `xs serve` child process, reference model of the active set",
+   text="Histories of register / unregister / replace / closure error, spawn / failing spawn, define / invalid define / call over 2 names x 2 contexts with the same name used in both contexts (quick: a fixed family of 16 histories x last two restart points x both signals; thorough: + every history of depth <= 3 over a 12-event alphabet x every restart point). After the restart, sentinels prove every serve loop is live; the handlers announced and the generators started must be exactly the active ones with their old ids, each answers a probe, commands are served by the latest definition of their own context, nothing that was stopped answers, no historical trigger or call is executed again.",
+   note="The child is the real `xs serve` binary built from /repo's working tree; its internal schedule is the OS's. Restart points are quiescent boundaries of the history (crash points inside an operation are C04's). Absence is decided after the expected answers plus an 80 ms grace period."),
 }
 NOT_YET = {}
 ALL = ["C%02d" % i for i in range(1, 21)]
@@ -116,7 +121,7 @@ def main():
     hooks = [c.split()[0] for c in commits if c.split(" ", 1)[1].startswith("verif hooks")][::-1]
     m = {
         "version": 1,
-        "setup_cmd": "cd /verif/engine && CARGO_NET_OFFLINE=true CARGO_TARGET_DIR=/verif/target cargo build --offline",
+        "setup_cmd": "cd /verif/engine && CARGO_NET_OFFLINE=true CARGO_TARGET_DIR=/verif/target cargo build --offline && cd /repo && CARGO_NET_OFFLINE=true cargo build --offline --bin xs --features verif --target-dir /verif/target --config profile.dev.debug=0",
         "hooks": {
             "guard": "cargo feature `verif` of crate cross-stream (cfg(feature = \"verif\"))",
             "enable": "the harness crate /verif/engine depends on cross-stream {path=/repo, features=[\"verif\"]}; ./check rebuilds it from /repo's working tree on every run",
@@ -125,7 +130,7 @@ def main():
             "add_only": True,
         },
         "engines": [
-            {"name": "E5-lifecycle", "path": "engine/src/e5.rs, engine/src/c15.rs, engine/src/c16.rs", "serves_properties": ["C15", "C16", "C18", "C19"],
+            {"name": "E5-lifecycle", "path": "engine/src/e5.rs, engine/src/c15.rs, engine/src/c16.rs", "serves_properties": ["C15", "C16", "C17", "C18", "C19"],
              "kind_free_text": "real handlers/generators/commands serve loops on a real store, driven through the Store API, sentinel-based quiescence"},
             {"name": "E3-crash", "path": "crash/crashenum.py, engine/src/crash.rs", "serves_properties": ["C04"],
              "kind_free_text": "strace-based crash-image enumerator (python) + traced driver and recovery checker (Rust)"},
